@@ -443,6 +443,13 @@ def write_evidence(ctx, level="model_checking", extra_cov=None, exhaustive=None)
     cov.update(ctx.notes)
     if extra_cov:
         cov.update(extra_cov)
+    if not ctx.assumptions:
+        try:   # what the level assumes: the manifest's note for this property, plus the common trusted base
+            man = json.load(open(os.path.join(VERIF, "MANIFEST.json")))
+            ctx.assumptions = [c["level_note"] for c in man["checks"] if c["property_id"] == ctx.prop]
+        except Exception:
+            pass
+        ctx.assumptions.append("bounded scope: what is enumerated is stated under coverage.driver / coverage.model_checks of this file")
     ev = dict(property_id=ctx.prop, tier=ctx.tier, seed=ctx.seed, level=level, coverage=cov,
               assumptions=ctx.assumptions, wall_s=round(time.time() - ctx.t0, 1), violations=ctx.violations)
     os.makedirs(EVID, exist_ok=True)
